@@ -307,7 +307,7 @@ def c12(tier, seed):
     q = tier == "quick"
     pipegen_step(res, "C12", tier, seed, "plain20-O0", 12 if q else 1, 250 if q else 4000, enumerate_k=True)
     if not res.harness_error:
-        driver.run_family(res, "C12", "fam_coro", "fib-asan", 20000 if q else 400000, seed, tier, cells="task-coroutine,await-lazy-task")
+        driver.run_family(res, "C12", "fam_coro", "fib-asan", 20000 if q else 400000, seed, tier, cells="task-coroutine,await-lazy-task,lazy-task-overwritten")
     return driver.finish("C12", tier, seed, "exploration", res,
                          PIPEGEN_RULE + "C12 looks at the lazy programs: a 'started' flag is raised immediately before the starting call "
                          "(ToFuture, ToFuture(e), Get, Detach, Detach(e), drop; returned-as-inner-Task and co_await/Await starts come from "
